@@ -25,6 +25,43 @@ func (x *Exec) binop(op token.Token, a, b Value, ta, tb types.Type) Value {
 		case token.ADD:
 			return x.concat(av, bv)
 		case token.LSS, token.LEQ, token.GTR, token.GEQ:
+			if av.Opaque || bv.Opaque {
+				lt, gt := x.opaqueLess(av, bv), x.opaqueLess(bv, av)
+				switch op {
+				case token.LSS:
+					return lt
+				case token.GTR:
+					return gt
+				case token.LEQ:
+					return tNot(gt)
+				default:
+					return tNot(lt)
+				}
+			}
+			if len(av.Alts)*len(bv.Alts) > 1 && len(av.Alts)*len(bv.Alts) <= 256 {
+				// no fork: the comparison is a term over the alternatives
+				lt, gt := TFalse, TFalse
+				for _, p := range av.Alts {
+					for _, q := range bv.Alts {
+						g := tAnd(p.G, q.G)
+						if g.IsFalse() {
+							continue
+						}
+						lt = tOr(lt, tAnd(g, altLess(p, q)))
+						gt = tOr(gt, tAnd(g, altLess(q, p)))
+					}
+				}
+				switch op {
+				case token.LSS:
+					return lt
+				case token.GTR:
+					return gt
+				case token.LEQ:
+					return tNot(gt)
+				default:
+					return tNot(lt)
+				}
+			}
 			l, r := x.pickAlt(av), x.pickAlt(bv)
 			switch op {
 			case token.LSS:
@@ -153,8 +190,15 @@ func (x *Exec) binop(op token.Token, a, b Value, ta, tb types.Type) Value {
 }
 
 func (x *Exec) concat(a, b *StrVal) *StrVal {
-	if a.Opaque || b.Opaque {
-		return &StrVal{Opaque: true}
+	if a.Opaque {
+		return a // prefix unchanged; the rest stays unknown
+	}
+	if b.Opaque {
+		pre := a
+		if b.OpPrefix != nil {
+			pre = x.concat(a, b.OpPrefix)
+		}
+		return &StrVal{Opaque: true, OpPrefix: pre, MinLen: b.MinLen}
 	}
 	if len(a.Alts)*len(b.Alts) > 64 {
 		a = x.single(a)
@@ -197,7 +241,7 @@ func (x *Exec) equalValues(a, b Value, t types.Type) *Term {
 	case *StrVal:
 		bv := b.(*StrVal)
 		if av.Opaque || bv.Opaque {
-			panic(unsupported("comparison of opaque string"))
+			return x.opaqueEq(av, bv)
 		}
 		return strEq(av, bv)
 	case *PtrVal:
@@ -586,4 +630,92 @@ func (x *Exec) callBuiltin(name string, args []Value, site *ssa.CallCommon) Valu
 		return nil
 	}
 	panic(unsupported("builtin " + name + fmt.Sprintf(" on %T", args[0])))
+}
+
+// opaqueEq: two texts produced by the same Sprintf format are equal when their operands are
+// (formatting is a function); anything else about opaque text is not decidable here.
+func (x *Exec) opaqueEq(a, b *StrVal) *Term {
+	if a == b {
+		return TTrue
+	}
+	if a.Opaque && b.Opaque && a.OpFmt != "" && a.OpFmt == b.OpFmt && len(a.OpArgs) == len(b.OpArgs) {
+		r := TTrue
+		for i := range a.OpArgs {
+			r = tAnd(r, x.deepEqual(a.OpArgs[i], b.OpArgs[i]))
+		}
+		return r
+	}
+	// one side known: a mismatch with the known prefix or the minimal length decides inequality
+	op, kn := a, b
+	if !a.Opaque {
+		op, kn = b, a
+	}
+	if op.Opaque && !kn.Opaque {
+		minLen := op.MinLen
+		if op.OpPrefix != nil && !op.OpPrefix.Opaque {
+			all := true
+			for _, pa := range op.OpPrefix.Alts {
+				if pa.Len() > minLen && len(op.OpPrefix.Alts) == 1 {
+					minLen = pa.Len()
+				}
+				_ = all
+			}
+		}
+		shorter := true
+		for _, ka := range kn.Alts {
+			if ka.Len() >= minLen {
+				shorter = false
+			}
+		}
+		if shorter {
+			return TFalse
+		}
+		if op.OpPrefix != nil && op.OpPrefix.IsConcrete() && kn.IsConcrete() {
+			p, k := op.OpPrefix.Conc(), kn.Conc()
+			if len(k) < len(p) || k[:len(p)] != p {
+				return TFalse
+			}
+		}
+	}
+	panic(unsupported("comparison of opaque string"))
+}
+
+// opaqueLess decides a < b from the known prefixes when they differ; otherwise it is not decidable.
+func (x *Exec) opaqueLess(a, b *StrVal) *Term {
+	known := func(s *StrVal) (StrAlt, bool) { // (known text, text is complete)
+		if !s.Opaque {
+			return x.pickAlt(s), true
+		}
+		if s.OpPrefix == nil {
+			return StrAlt{G: TTrue, S: ""}, false
+		}
+		return x.pickAlt(s.OpPrefix), false
+	}
+	pa, ca := known(a)
+	pb, cb := known(b)
+	n := pa.Len()
+	if pb.Len() < n {
+		n = pb.Len()
+	}
+	for i := 0; i < n; i++ {
+		ba, bb := pa.Byte(i), pb.Byte(i)
+		if x.decide(tEq(ba, bb)) {
+			continue
+		}
+		return bvCmp(OpULt, ba, bb)
+	}
+	// common known part is equal
+	if ca && cb {
+		return mkBool(pa.Len() < pb.Len())
+	}
+	if ca && pa.Len() <= pb.Len() {
+		// a is complete and a prefix of b's known text: a < b unless b == a exactly (b has more text or equal)
+		if pa.Len() < pb.Len() {
+			return TTrue
+		}
+	}
+	if cb && pb.Len() < pa.Len() {
+		return TFalse // b is complete and a proper prefix of a
+	}
+	panic(unsupported("ordering of strings whose distinguishing text is unknown (opaque)"))
 }
